@@ -44,10 +44,35 @@ func c12Path(h *zz.H, name string) client.Path {
 	return p
 }
 
+// c12Val: the decoded value of an update as the client library hands it to the display: scalars,
+// nil, bytes, and (possibly empty or nested) lists.
+func c12Val(h *zz.H) interface{} {
+	switch h.Range("val_kind", 0, h.Param("VALS", 8)) {
+	case 0:
+		return h.Int64("v")
+	case 1:
+		return h.Atom("vs")
+	case 2:
+		return h.Bool("vb")
+	case 3:
+		return nil
+	case 4:
+		return []interface{}{}
+	case 5:
+		return []interface{}{h.Int64("v"), h.Atom("vs")}
+	case 6:
+		return []interface{}{[]interface{}{}, h.Int64("v")}
+	case 7:
+		return []byte{}
+	default:
+		return h.Uint64("vu")
+	}
+}
+
 func c12Noti(h *zz.H) client.Notification {
 	switch h.Range("kind", 0, 3) {
 	case 0:
-		return client.Update{Path: c12Path(h, "upd"), TS: time.Unix(0, h.Int64("ts")), Val: h.Int64("v")}
+		return client.Update{Path: c12Path(h, "upd"), TS: time.Unix(0, h.Int64("ts")), Val: c12Val(h)}
 	case 1:
 		return client.Delete{Path: c12Path(h, "del"), TS: time.Unix(0, h.Int64("ts"))}
 	case 2:
